@@ -256,23 +256,46 @@ fn odd_mutation(rng: &mut Rng, a2l: &mut A2lFile) -> &'static str {
             "many_axis_descr"
         }
         1 => {
-            // duplicate names inside one list and across object kinds
+            // duplicate names inside one list (every list kind in turn) and across object kinds
+            macro_rules! dup_first {
+                ($list:expr) => {{
+                    let first = $list.iter().next().cloned();
+                    if let Some(f) = first {
+                        $list.push(f);
+                    }
+                }};
+            }
+            match rng.below(12) {
+                0 => dup_first!(m.measurement),
+                1 => dup_first!(m.characteristic),
+                2 => dup_first!(m.group),
+                3 => dup_first!(m.function),
+                4 => dup_first!(m.compu_method),
+                5 => dup_first!(m.unit),
+                6 => dup_first!(m.record_layout),
+                7 => dup_first!(m.typedef_structure),
+                8 => dup_first!(m.instance),
+                9 => dup_first!(m.axis_pts),
+                10 => dup_first!(m.transformer),
+                _ => dup_first!(m.compu_vtab),
+            }
             let first_opt = m.measurement.iter().next().cloned();
             if let Some(first) = first_opt {
-                m.measurement.push(first.clone());
-                let mut c = Characteristic::new(
-                    first.get_name().to_string(),
-                    "dup".into(),
-                    CharacteristicType::Value,
-                    0,
-                    "nowhere".into(),
-                    0.0,
-                    "NO_COMPU_METHOD".into(),
-                    0.0,
-                    1.0,
-                );
-                c.axis_descr.clear();
-                m.characteristic.push(c);
+                if rng.coin() {
+                    let mut c = Characteristic::new(
+                        first.get_name().to_string(),
+                        "dup".into(),
+                        CharacteristicType::Value,
+                        0,
+                        "nowhere".into(),
+                        0.0,
+                        "NO_COMPU_METHOD".into(),
+                        0.0,
+                        1.0,
+                    );
+                    c.axis_descr.clear();
+                    m.characteristic.push(c);
+                }
             }
             "duplicate_names"
         }
